@@ -6,6 +6,7 @@
    the captured scopes (`modify`); a `modify` target is always marked as captured; `const` marks the new ident read-only;
    a typed declaration whose value has a known incompatible type is rejected."""
 from vlib.rules import *
+from vlib.lexer import match_close
 from vlib.pattern import Pat
 
 IDENT = "compiler/src/ast/ident.rs"
@@ -302,6 +303,15 @@ def build_for_type(repo):
     b = translate(arm["body"], rules, log, "Expr::for_type[BinOp]")
     b = ["lhs_e" if (t == "lhs" and False) else t for t in b]
     check_closed(b, "Expr::for_type[BinOp]")
+    # cost discipline (C16): the same text with every recursive type query counted -- an operand is typed at most once per level
+    b_once, k = [], 0
+    while k < len(b):
+        if b[k] == "expr_for_type" and k + 1 < len(b) and b[k + 1] == "(":
+            c = match_close(b, k + 1)
+            b_once += ["expr_for_type_once", "("] + b[k + 2:c] + [",", "verif_typed", ")"]
+            k = c + 1
+        else:
+            b_once.append(b[k]); k += 1
     # inside the Index arm `index` names the scrutinee: bind it
     txt = render(b, 1)
     fia = src.fn(MATH, "is_op_assign", "impl Op")
@@ -372,10 +382,27 @@ pub fn for_type_binop(lhs: &Expr, op: &Op, rhs: &Expr, flags: &Flags) -> (r: Res
 {{
 {txt}
 }}
+
+// ---- C16 (terminates promptly): the type of a BinOp is not cached, so typing an operand TWICE at one level makes the cost of a chain `a op b op c ..` (a left-deep
+// tree) 2^length.  Every recursive type query of the arm consumes the right to type that operand: a second query of the same operand is a violated precondition.
+pub struct Typed {{ pub s: Ghost<Set<int>> }}
+pub uninterp spec fn expr_id(e: &Expr) -> int;
+#[verifier::external_body] pub fn expr_for_type_once(e: &Expr, f: &Flags, t: &mut Typed) -> (r: Result<TypeLayout, VErr>)
+    requires !old(t).s@.contains(expr_id(e))
+    ensures final(t).s@ == old(t).s@.insert(expr_id(e)), r is Ok <==> expr_type(e, f) is Some, r is Ok ==> r->Ok_0 == expr_type(e, f)->Some_0 {{ unimplemented!() }}
+//@ OBL C16.for_type.operands-once
+pub fn for_type_binop_once(lhs: &Expr, op: &Op, rhs: &Expr, flags: &Flags, verif_typed: &mut Typed) -> (r: Result<TypeLayout, VErr>)
+    requires old(verif_typed).s@ == Set::<int>::empty(), expr_id(lhs) != expr_id(rhs),
+             // the object of a field access is a part of the left operand, not the operand itself
+             lhs is DotLookup ==> expr_id(&*lhs->DotLookup_lhs) != expr_id(lhs) && expr_id(&*lhs->DotLookup_lhs) != expr_id(rhs),
+{{
+{render(b_once, 1)}
+}}
 }} // verus!
 fn main() {{}}
 """
-    return gen, [Obl("C10.op.is_op_assign", ["C10", "C03", "C02"], fn="Op::is_op_assign", desc="Op::is_op_assign: true exactly for += -= *= /= %= (the operators whose const test Expr::for_type runs)"),
+    return gen, [Obl("C16.for_type.operands-once", ["C16"], fn="Expr::for_type[BinOp]", desc="Expr::for_type (BinOp): each operand is typed at most once per level (BinOp types are not cached: a second query per level makes an operator chain cost 2^length)"),
+                 Obl("C10.op.is_op_assign", ["C10", "C03", "C02"], fn="Op::is_op_assign", desc="Op::is_op_assign: true exactly for += -= *= /= %= (the operators whose const test Expr::for_type runs)"),
                  Obl("C10.root_ident.value", ["C10"], fn="Value::root_ident", desc="Value::root_ident: the same for a value (a name, or an expression in its own right)"),
                  Obl("C10.root_ident", ["C10"], fn="Expr::root_ident", desc="Expr::root_ident: a variable the place is rooted at -- through index, field, `get` and `or` -- and a const one whenever there is one"),
                  Obl("C10.for_type.binop", ["C10", "C03", "C16", "C02", "C11"], fn="for_type_binop",
